@@ -752,6 +752,43 @@ func editIncDec(p *parsed, site int) (string, int) {
 	return desc, done
 }
 
+// editDeleteCall removes the site'th expression statement that is a call (an effect disappears).
+func editDeleteCall(p *parsed, site int) (string, int) {
+	n, done := 0, 0
+	desc := ""
+	ast.Inspect(p.fn, func(nd ast.Node) bool {
+		bl, ok := nd.(*ast.BlockStmt)
+		if !ok {
+			return true
+		}
+		for i := 0; i < len(bl.List); i++ {
+			es, ok := bl.List[i].(*ast.ExprStmt)
+			if !ok {
+				continue
+			}
+			c, ok := es.X.(*ast.CallExpr)
+			if !ok {
+				continue
+			}
+			if id, ok := c.Fun.(*ast.Ident); !ok || id.Name != "sink" {
+				continue
+			}
+			if n == site && done == 0 {
+				desc = fmt.Sprintf("delete the statement `%s`", exprStr(p.fset, es))
+				bl.List = append(bl.List[:i:i], bl.List[i+1:]...)
+				done++
+				i--
+			}
+			n++
+		}
+		return true
+	})
+	if site >= n {
+		return "", 0
+	}
+	return desc, done
+}
+
 var editOps = []siteOp{
 	{"E1-operator", "edit", editOperator},
 	{"E2-negate-without-swap", "edit", editNegate},
@@ -763,6 +800,7 @@ var editOps = []siteOp{
 	{"E8-variable-use", "edit", editVarUse},
 	{"E9-small-int", "edit", editSmallInt},
 	{"E10-step", "edit", editIncDec},
+	{"E11-delete-call", "edit", editDeleteCall},
 }
 
 func applyOne(src string, op siteOp, site int) (Variant, int) {
